@@ -281,12 +281,17 @@ func fromMetaElement(s string) string {
 }
 
 func xmlEncoding(s string) string {
-	param := "encoding="
+	param := "encoding"
 	idx := strings.Index(s, param)
 	if idx == -1 {
 		return ""
 	}
-	v := s[idx+len(param):]
+	// XML allows white space on both sides of the equals sign.
+	v := strings.TrimLeft(s[idx+len(param):], " \t\r\n")
+	if !strings.HasPrefix(v, "=") {
+		return ""
+	}
+	v = strings.TrimLeft(v[1:], " \t\r\n")
 	if v == "" {
 		return ""
 	}
